@@ -35,11 +35,7 @@ Fixpoint distinct_hdrs_b (l : list jtxn) : bool :=
   end.
 
 Definition t07_dom (c : run7) : bool :=
-  match rc_filter (r7_base c) with
-  | Some (f, _) => negb (has_ts_leaf f) || (rc_zone_off (r7_base c) =? 0)
-  | None => true
-  end
-  && nodupb (map kind_name (rc_targets (r7_base c))) && nodupb (map export_name (rc_exports (r7_base c))).
+  nodupb (map kind_name (rc_targets (r7_base c))) && nodupb (map export_name (rc_exports (r7_base c))).
 
 Definition t07_domain (c : run7) (files : list (list (list N) * list N)) (st : run_state) : bool :=
   t07_dom c
@@ -62,7 +58,9 @@ Definition t07_console_case (c : run7) (tbl : list (list N * list N)) (files : l
       let orc := negb ok || negb (no_pats c) || console_oracle b (rs_file st) (rs_txns st) out in
       match run7_console H c files ptext with
       | Ok m => t06_bits (ok && text_eqb m out) orc (t07_domain c files st) (run_hyp b st) (first_diff m out 0)
-      | Err _ => t06_bits (negb ok) orc false (run_hyp b st) 1
+      | Err _ =>
+          t06_bits (negb ok && is_prefix_of (MetaText.file_head (rs_md st) ++ frames_before (report_text7 H c st) (rc_targets b)) out)
+                   orc (t07_dom c && conv_overflow b st) (run_hyp b st) 1
       end
   end.
 
